@@ -2136,6 +2136,17 @@ func (d *Document) parseBodySubElement(decoder *xml.Decoder, startElement xml.St
 	case "sectPr":
 		// 解析节属性
 		return d.parseSectionProperties(decoder, startElement)
+	case "bookmarkStart":
+		// 书签开始（标题与目录之间的链接依赖它）
+		bookmark := &BookmarkStart{
+			ID:   getAttributeValue(startElement.Attr, "id"),
+			Name: getAttributeValue(startElement.Attr, "name"),
+		}
+		return bookmark, d.skipElement(decoder, startElement.Name.Local)
+	case "bookmarkEnd":
+		// 书签结束
+		bookmark := &BookmarkEnd{ID: getAttributeValue(startElement.Attr, "id")}
+		return bookmark, d.skipElement(decoder, startElement.Name.Local)
 	default:
 		// 跳过未知元素
 		Debugf("跳过未知元素: %s", startElement.Name.Local)
@@ -2252,6 +2263,48 @@ func (d *Document) parseParagraphProperties(decoder *xml.Decoder, paragraph *Par
 					return err
 				}
 				d.setSectionProperties(sectPr)
+			case "keepNext":
+				paragraph.Properties.KeepNext = &KeepNext{Val: getAttributeValue(t.Attr, "val")}
+				if err := d.skipElement(decoder, t.Name.Local); err != nil {
+					return err
+				}
+			case "keepLines":
+				paragraph.Properties.KeepLines = &KeepLines{Val: getAttributeValue(t.Attr, "val")}
+				if err := d.skipElement(decoder, t.Name.Local); err != nil {
+					return err
+				}
+			case "pageBreakBefore":
+				paragraph.Properties.PageBreakBefore = &PageBreakBefore{Val: getAttributeValue(t.Attr, "val")}
+				if err := d.skipElement(decoder, t.Name.Local); err != nil {
+					return err
+				}
+			case "widowControl":
+				paragraph.Properties.WidowControl = &WidowControl{Val: getAttributeValue(t.Attr, "val")}
+				if err := d.skipElement(decoder, t.Name.Local); err != nil {
+					return err
+				}
+			case "snapToGrid":
+				paragraph.Properties.SnapToGrid = &SnapToGrid{Val: getAttributeValue(t.Attr, "val")}
+				if err := d.skipElement(decoder, t.Name.Local); err != nil {
+					return err
+				}
+			case "outlineLvl":
+				paragraph.Properties.OutlineLevel = &OutlineLevel{Val: getAttributeValue(t.Attr, "val")}
+				if err := d.skipElement(decoder, t.Name.Local); err != nil {
+					return err
+				}
+			case "pBdr":
+				border, err := d.parseParagraphBorder(decoder)
+				if err != nil {
+					return err
+				}
+				paragraph.Properties.ParagraphBorder = border
+			case "tabs":
+				tabs, err := d.parseParagraphTabs(decoder)
+				if err != nil {
+					return err
+				}
+				paragraph.Properties.Tabs = tabs
 			default:
 				if err := d.skipElement(decoder, t.Name.Local); err != nil {
 					return err
@@ -2260,6 +2313,71 @@ func (d *Document) parseParagraphProperties(decoder *xml.Decoder, paragraph *Par
 		case xml.EndElement:
 			if t.Name.Local == "pPr" {
 				return nil
+			}
+		}
+	}
+}
+
+// parseParagraphBorder 解析段落边框
+func (d *Document) parseParagraphBorder(decoder *xml.Decoder) (*ParagraphBorder, error) {
+	border := &ParagraphBorder{}
+	for {
+		token, err := decoder.Token()
+		if err != nil {
+			return nil, WrapError("parse_paragraph_border", err)
+		}
+		switch t := token.(type) {
+		case xml.StartElement:
+			line := &ParagraphBorderLine{
+				Val:   getAttributeValue(t.Attr, "val"),
+				Color: getAttributeValue(t.Attr, "color"),
+				Sz:    getAttributeValue(t.Attr, "sz"),
+				Space: getAttributeValue(t.Attr, "space"),
+			}
+			switch t.Name.Local {
+			case "top":
+				border.Top = line
+			case "left":
+				border.Left = line
+			case "bottom":
+				border.Bottom = line
+			case "right":
+				border.Right = line
+			}
+			if err := d.skipElement(decoder, t.Name.Local); err != nil {
+				return nil, err
+			}
+		case xml.EndElement:
+			if t.Name.Local == "pBdr" {
+				return border, nil
+			}
+		}
+	}
+}
+
+// parseParagraphTabs 解析段落制表位
+func (d *Document) parseParagraphTabs(decoder *xml.Decoder) (*Tabs, error) {
+	tabs := &Tabs{}
+	for {
+		token, err := decoder.Token()
+		if err != nil {
+			return nil, WrapError("parse_paragraph_tabs", err)
+		}
+		switch t := token.(type) {
+		case xml.StartElement:
+			if t.Name.Local == "tab" {
+				tabs.Tabs = append(tabs.Tabs, TabDef{
+					Val:    getAttributeValue(t.Attr, "val"),
+					Leader: getAttributeValue(t.Attr, "leader"),
+					Pos:    getAttributeValue(t.Attr, "pos"),
+				})
+			}
+			if err := d.skipElement(decoder, t.Name.Local); err != nil {
+				return nil, err
+			}
+		case xml.EndElement:
+			if t.Name.Local == "tabs" {
+				return tabs, nil
 			}
 		}
 	}
@@ -2347,6 +2465,26 @@ func (d *Document) parseRun(decoder *xml.Decoder, startElement xml.StartElement)
 					return nil, err
 				}
 				run.Drawing = drawing
+			case "br":
+				// 分页符/换行符
+				run.Break = &Break{Type: getAttributeValue(t.Attr, "type")}
+				if err := d.skipElement(decoder, t.Name.Local); err != nil {
+					return nil, err
+				}
+			case "fldChar":
+				// 域字符
+				run.FieldChar = &FieldChar{FieldCharType: getAttributeValue(t.Attr, "fldCharType")}
+				if err := d.skipElement(decoder, t.Name.Local); err != nil {
+					return nil, err
+				}
+			case "instrText":
+				// 域指令文本
+				space := getAttributeValue(t.Attr, "space")
+				content, err := d.readElementText(decoder, "instrText")
+				if err != nil {
+					return nil, err
+				}
+				run.InstrText = &InstrText{Space: space, Content: content}
 			default:
 				if err := d.skipElement(decoder, t.Name.Local); err != nil {
 					return nil, err
@@ -2736,6 +2874,15 @@ func (d *Document) parseTableCell(decoder *xml.Decoder, startElement xml.StartEl
 				if para != nil {
 					cell.Paragraphs = append(cell.Paragraphs, *para)
 				}
+			case "tbl":
+				// 解析嵌套表格
+				nested, err := d.parseTable(decoder, t)
+				if err != nil {
+					return nil, err
+				}
+				if nested != nil {
+					cell.Tables = append(cell.Tables, *nested)
+				}
 			default:
 				if err := d.skipElement(decoder, t.Name.Local); err != nil {
 					return nil, err
@@ -2845,6 +2992,20 @@ func (d *Document) parseSectionProperties(decoder *xml.Decoder, startElement xml
 				if ref.ID != "" || ref.Type != "" {
 					sectPr.FooterReferences = append(sectPr.FooterReferences, ref)
 				}
+				if err := d.skipElement(decoder, t.Name.Local); err != nil {
+					return nil, err
+				}
+			case "titlePg":
+				// 首页不同
+				if val := getAttributeValue(t.Attr, "val"); val != "0" && val != "false" {
+					sectPr.TitlePage = &TitlePage{}
+				}
+				if err := d.skipElement(decoder, t.Name.Local); err != nil {
+					return nil, err
+				}
+			case "pgNumType":
+				// 页码格式
+				sectPr.PageNumType = &PageNumType{Fmt: getAttributeValue(t.Attr, "fmt")}
 				if err := d.skipElement(decoder, t.Name.Local); err != nil {
 					return nil, err
 				}
